@@ -71,6 +71,16 @@ class Ctx:
                                            facts, nontrivial))
         return bool(ok)
 
+    def section(self, fn, *args, **kw):
+        """run one independent group of rules; an anchor or idiom it needs
+        that is missing makes that group undecidable, not the others"""
+        try:
+            return fn(*args, **kw)
+        except AnalysisError as e:
+            self.undecided.append(f"{getattr(fn, '__name__', 'section')}: "
+                                  f"{e}")
+            return None
+
     def require(self, cond: bool, what: str):
         """anchor / idiom the analysis needs; absence is an analysis error,
         never a verdict"""
@@ -156,9 +166,15 @@ def run_rules(pid: str, repo: str, tier: str, seed: int):
     mod = importlib.import_module(f"sa.rules.{pid.lower()}")
     prog = Program(repo, packages=("evo",), extra_dirs=("contrib",))
     ctx = Ctx(pid, prog, tier, seed)
-    mod.check(ctx)
-    if tier == "thorough" and hasattr(mod, "thorough"):
-        mod.thorough(ctx)
+    try:
+        mod.check(ctx)
+        if tier == "thorough" and hasattr(mod, "thorough"):
+            mod.thorough(ctx)
+    except AnalysisError as e:
+        # what was decided before the anchor / idiom went missing still
+        # stands (a violation found earlier is reported); the rest is
+        # undecidable
+        ctx.undecided.append(f"analysis stopped: {e}")
     return mod, ctx
 
 
